@@ -312,7 +312,10 @@ func jwsMutations() []jwsMut {
 	add("crit:names-crit", func(b *jwsBuild, c *jwsCtx) { addCrit(b, "crit") })
 	add("crit:names-time", func(b *jwsBuild, c *jwsCtx) { addCrit(b, "io.cncf.notary.signingTime") })
 	// crit naming a header of the specification that this envelope does not carry
-	add("crit:names-expiry-absent", func(b *jwsBuild, c *jwsCtx) { dropMember(b, "io.cncf.notary.expiry"); addCrit(b, "io.cncf.notary.expiry") })
+	add("crit:names-expiry-absent", func(b *jwsBuild, c *jwsCtx) {
+		dropMember(b, "io.cncf.notary.expiry")
+		addCrit(b, "io.cncf.notary.expiry")
+	})
 	add("crit:names-auth-time-absent", func(b *jwsBuild, c *jwsCtx) {
 		if c.scheme == "notary.x509" {
 			addCrit(b, "io.cncf.notary.authenticSigningTime")
@@ -320,7 +323,9 @@ func jwsMutations() []jwsMut {
 			addCrit(b, "io.cncf.notary.signingTime")
 		}
 	})
-	add("crit:names-both-times", func(b *jwsBuild, c *jwsCtx) { addCrit(b, "io.cncf.notary.signingTime", "io.cncf.notary.authenticSigningTime") })
+	add("crit:names-both-times", func(b *jwsBuild, c *jwsCtx) {
+		addCrit(b, "io.cncf.notary.signingTime", "io.cncf.notary.authenticSigningTime")
+	})
 	add("crit:dup-scheme", func(b *jwsBuild, c *jwsCtx) { addCrit(b, "io.cncf.notary.signingScheme") })
 	add("crit:null-element", func(b *jwsBuild, c *jwsCtx) {
 		raw := getMember(b, "crit")
